@@ -87,6 +87,7 @@ DEFAULT_PROFILE: dict[str, Any] = {
     "dup_enum_keys": False,         # C06 finding: member names that coincide crash the generator
     "date_datetime_union": False,   # C02 finding
     "two_array_union": False,       # C02 finding
+    "bool_intenum_union": False,    # C02/C14 finding: JSON true/false taken for the integer members 1/0
     "versions": ["3.0.3", "3.1.0"],
     "bodies": True,
     "multipart": True,
@@ -212,10 +213,15 @@ def union_ir(draw, prof, comp_names, depth):
                 seen = True
             kept.append(m)
         members = kept
+    if not prof.get("bool_intenum_union"):
+        def _is_int_enum(m):
+            return m["k"] == "enum" and m["base"] == "int"
+        if any(m["k"] == "bool" for m in members) and any(_is_int_enum(m) or m["k"] == "ref" for m in members):
+            members = [m for m in members if m["k"] != "bool"]
     for m in members:
         m.pop("nullable", None)
     if len(members) < 2:
-        members.append({"k": "bool"})
+        members.append({"k": "int"} if members and _json_class(members[0]) in ("string", "objectish") else {"k": "str"})
     return {"k": "union", "members": members, "how": draw(st.sampled_from(["anyOf", "oneOf"]))}
 
 
@@ -278,8 +284,11 @@ def components(draw, prof, min_schemas=1):
                                       and _first_word(p[0]) not in {_first_word(q[0]) for q in _all_props(parent[1], dict(out))}]
                     if not child["props"]:
                         continue
-                    if child.get("addl") is False:
-                        child["addl"] = None
+                    if child.get("addl") is False or isinstance(child.get("addl"), dict):
+                        child["addl"] = None  # JSON Schema applies it to the parent's properties too: a trap, not a case
+                    for anc in [parent[1]] + [cmap[n] for n in cmap if reaches(cmap, parent[0], n) and cmap[n].get("k") == "object"]:
+                        if anc.get("addl") is False or isinstance(anc.get("addl"), dict):
+                            anc["addl"] = None  # same trap in the other direction
                     child["allOf"] = [{"k": "ref", "name": parent[0]}]
     if draw(st.booleans()):
         order = draw(st.permutations(range(len(out))))
